@@ -95,6 +95,7 @@ def charts(ctx, out):
         p = ic.prof(phrases=1.0, garbage=0.0)
         src = gen.rand_src(rng, p)
         cases.append((src, gen.render(src, rng, p)))
+    cases += ic.far_cases(rng, ic.prof(garbage=0.0, exotic_pad=0.0, exotic_digits=0.0))  # ticks and lengths beyond 2^53, adjacent ticks
     ic.run(ctx, out, cases, lambda notes: [(n["tick"], n["sp"]) for n in notes],
            lambda tl: [(t["tick"], t["sp"]) for t in tl], "star-power indices",
            lambda src: any(gen.sp_truth(tr.phrases, g.tick) is not None for tr in src.tracks for g in tr.groups))
